@@ -204,6 +204,11 @@ func TestWorker(t *testing.T) {
 		default:
 			if seenClass[res.Class] || len(sum.Violations) >= maxViol {
 				sum.Counters["violations_not_minimised_duplicates"]++
+				if sum.Counters["violations_not_minimised_duplicates"] >= 40 {
+					// the check has failed many times over: stop exploring, report what was found
+					sum.Counters["exploration_cut_short_after_repeated_violations"] = 1
+					idx = runs
+				}
 				continue
 			}
 			seenClass[res.Class] = true
